@@ -3,7 +3,7 @@
    lemma proved in Proofs/Present*.v.  The model is Model/Present.v. *)
 From Dns Require Import Model.Present.
 From Dns Require Import Proofs.PresentEscProofs Proofs.PresentCodeProofs Proofs.PresentLexProofs Proofs.PresentTxtProofs
-     Proofs.PresentWordProofs Proofs.PresentGrammarProofs Proofs.PresentRecordProofs.
+     Proofs.PresentWordProofs Proofs.PresentAtomProofs Proofs.PresentGrammarProofs Proofs.PresentRecordProofs.
 Open Scope N_scope.
 
 (* ---- character-strings: all 256 octet values, any length ---- *)
@@ -124,9 +124,14 @@ Proof. intros ls H. split; [now apply sprint_name_canonical|now apply show_name_
    field width; names whose printed form is one word that toAbsoluteName
    returns as it stands; four address octets; character-strings denoting at
    most 255 octets each; hex/base64 text that is one word; types other than 0
-   and 65535 in a type list.  Layouts (wf_playout): simple fields followed by
-   at most one field reading to the end of the line, or a lone list of quoted
-   strings.  Then: what present_fields prints, split by the zone lexer, is
+   and 65535 in a type list; for the irregular types: strings printed verbatim
+   that are one word (X25, CAA tag, NAPTR replacement) or whose quotes are all
+   escaped (NAPTR flags, service, regexp); a salt whose SaltLength is what the
+   parser recomputes; NSEC3 HashLength 20; SMIMEA hex text whose 1024-character
+   pieces are words; CERT / RRSIG numbers within their width; RRSIG times below
+   2^32 printed at a clock reading of 1970 or later; EUI48 below 2^48; EUI64,
+   NID, L64 below 2^64.  Layouts (wf_playout): simple fields followed by
+   at most one field reading to the end of the line, or a single field.  Then: what present_fields prints, split by the zone lexer, is
    read by parse_fields as the same values in the printer's normal form. *)
 Theorem c05_present_roundtrip :
   forall (G : list pfield) (vs : list pval),
@@ -147,7 +152,9 @@ Theorem c05_norm_from_wire :
   (forall ws, Forall wfb ws -> norm_val P_qstrs (V_strs (map esc_wire ws)) = V_strs (map esc_wire ws)).
 Proof. exact norm_from_wire. Qed.
 
-(* Every layout of the table (49 types) is well-formed and belongs to a registered type. *)
+(* Every layout of the table (65 types: the 49 regular ones and HINFO, X25,
+   ISDN, SIG, NAPTR, CERT, RRSIG, NSEC3, NSEC3PARAM, SMIMEA, UINFO, NID, L64,
+   EUI48, EUI64, CAA) is well-formed and belongs to a registered type. *)
 Theorem c05_layouts_wf :
   forall t G, playout t = Some G -> wf_playout G = true /\ is_registered t = true.
 Proof. intros t G H. split; [now apply (layouts_wf t)|now apply (proj2 layouts_registered t G)]. Qed.
@@ -185,3 +192,53 @@ Theorem c05_generic_roundtrip :
     parse_rr (present_rr_3597 h w) = Ok (hdr_norm h, R_generic (hex_bytes w)) /\
     unhex (string_of_bytes (hex_bytes w)) = w.
 Proof. exact generic_roundtrip. Qed.
+
+(* ---- the irregular printers and parsers ---- *)
+
+(* RRSIG / SIG times: TimeToString at any clock reading from 1970 on, then
+   StringToTime, for every 32-bit time (the calendar swept day by day over
+   1970-01-01 .. 2106-02-07, the serial-number arithmetic included). *)
+Theorem c05_time_roundtrip :
+  forall (now : Z) (t : N), (0 <= now)%Z -> t < 4294967296 ->
+    string_to_time (time_to_string now t) = Some t.
+Proof. exact time_roundtrip. Qed.
+
+(* With a clock reading before 1970 the correction TimeToString applies is
+   not undone by StringToTime: the hypothesis above is needed. *)
+Theorem c05_time_before_1970_refuted :
+  string_to_time (time_to_string (-4294967296) 0) = Some 2147483648.
+Proof. exact time_before_1970_refuted. Qed.
+
+(* CERT type and algorithm: mnemonic when the table has one, decimal
+   otherwise, read back as the same number. *)
+Theorem c05_mnemonic_roundtrip :
+  forall (m : mtable) (n bits : N) (r : list tok), n < 2 ^ bits ->
+    read_single (P_mnem m bits) (TStr (show_mnem m n) :: r) = Ok (V_int n, r).
+Proof. exact mnemonic_roundtrip. Qed.
+
+(* EUI48 / EUI64 and NID / L64: the dashed / grouped hexadecimal text is one
+   word and is read back as the same number. *)
+Theorem c05_eui_roundtrip :
+  forall (k : nat) (n : N), eui_ok k n ->
+    word_ok (eui_to_string k n) = true /\ parse_eui k (eui_to_string k n) = Some n.
+Proof. exact eui_roundtrip. Qed.
+Theorem c05_nodeid_roundtrip :
+  forall (up : bool) (n : N), n < 18446744073709551616 ->
+    word_ok (nodeid_to_string up n) = true /\ parse_nodeid (nodeid_to_string up n) = Some n.
+Proof. exact nodeid_roundtrip. Qed.
+
+(* Refuted on the faithful model (known findings of the implementation):
+   X25 with an empty address prints nothing and the newline token is read as
+   the address; CAA with an empty tag is rejected; NSEC3.parse sets
+   HashLength to 20 whatever the record had. *)
+Theorem c05_x25_empty_refuted :
+  parse_fields [P_word false] (lex_rdata (present_fields [P_word false] [V_word []] ++ [10])) = Ok [V_word [10]].
+Proof. exact x25_empty_refuted. Qed.
+Theorem c05_caa_empty_tag_refuted :
+  parse_fields [P_uint 8; P_word true; P_octet]
+    (lex_rdata (present_fields [P_uint 8; P_word true; P_octet] [V_int 0; V_word []; V_octet [120]] ++ [10])) = Err "word".
+Proof. exact caa_empty_tag_refuted. Qed.
+Theorem c05_nsec3_hash_length_refuted :
+  forall (n : N) (w : bytes) (r : list tok), word_ok w = true ->
+    read_single P_b32 (TStr w :: r) = Ok (V_sized 20 w, r) /\ (n <> 20 -> V_sized 20 w <> V_sized n w).
+Proof. exact nsec3_hash_length_refuted. Qed.
